@@ -945,7 +945,10 @@ def actor_strategy(draw, tier):
     return {"act": act, "obs_dim": draw(st.integers(1, 4)), "B": draw(st.integers(1, 6)), "B2": draw(st.integers(1, 4)),
             "wseed": draw(st.integers(0, 9999)), "wscale": draw(st.sampled_from([0.0, 0.1, 0.3, 1.0])),
             "wscale2": draw(st.sampled_from([0.0, 0.05, 0.3])),
-            "std_init": draw(st.sampled_from([-25.0, -2.0, -1.0, -0.5, 0.0, 0.0, 0.5, 2.5, 4.0])) if act["k"] == "box" else 0.0,
+            # (wide log-std range only without squashing: with exp(2.5) ~ 12 nearly every tanh sample saturates and the float32
+            #  log(1 - tanh^2) correction is ill-conditioned there - that would test rounding, not the property)
+            "std_init": (draw(st.sampled_from([-2.0, -1.0, -0.5, 0.0, 0.0, 0.5])) if squash else
+                         draw(st.sampled_from([-25.0, -2.0, -1.0, -0.5, 0.0, 0.0, 0.5, 2.5, 4.0]))) if act["k"] == "box" else 0.0,
             "squash": squash, "mask": draw(st.integers(0, 1)), "mask_density": draw(st.sampled_from([0.2, 0.5, 0.8])),
             "mask_form": draw(st.sampled_from(["numpy", "bool", "tensor", "object"])),
             "K": draw(st.integers(3, 12)), "oseed": draw(st.integers(0, 9999)), "tseed": draw(st.integers(0, 9999)),
@@ -960,7 +963,7 @@ def ppo_strategy(draw, tier):
             "T": draw(st.integers(2, 4)), "E": draw(st.integers(1, 3)), "batch_size": draw(st.integers(2, 5)),
             "epochs": draw(st.integers(1, 2)), "lr": draw(st.sampled_from([1e-3, 1e-2, 5e-2])),
             "wseed": draw(st.integers(0, 9999)), "wscale": draw(st.sampled_from([0.0, 0.1, 0.3])),
-            "std_init": draw(st.sampled_from([0.0, 0.0, 0.3, 2.5])) if act["k"] == "box" else 0.0,
+            "std_init": (draw(st.sampled_from([0.0, 0.0, 0.3])) if squash else draw(st.sampled_from([0.0, 0.0, 0.3, 2.5]))) if act["k"] == "box" else 0.0,
             "squash": squash, "nohead": draw(st.integers(0, 1)) if squash else 0, "mask": draw(st.sampled_from([0, 0, 1])),
             "oseed": draw(st.integers(0, 9999)), "tseed": draw(st.integers(0, 9999))}
 
@@ -980,7 +983,7 @@ def ippo_strategy(draw, tier):
             "T": draw(st.integers(2, 3)), "E": draw(st.integers(1, 3)), "batch_size": draw(st.integers(2, 5)),
             "epochs": draw(st.integers(1, 2)), "lr": draw(st.sampled_from([1e-3, 1e-2, 5e-2])),
             "wseed": draw(st.integers(0, 9999)), "wscale": draw(st.sampled_from([0.0, 0.1, 0.3])),
-            "std_init": draw(st.sampled_from([0.0, 0.0, 0.3, 2.5])) if act["k"] == "box" else 0.0,
+            "std_init": (draw(st.sampled_from([0.0, 0.0, 0.3])) if squash else draw(st.sampled_from([0.0, 0.0, 0.3, 2.5]))) if act["k"] == "box" else 0.0,
             "squash": squash, "oseed": draw(st.integers(0, 9999)), "tseed": draw(st.integers(0, 9999))}
 
 
